@@ -28,9 +28,11 @@ def run(tier):
     common.build_harness()
     v = common.Verdict("C04", tier, "model_checking")
     tally = le.Tally()
-    for module, env in profiles(tier) + [("GenNameCases", {"EVENTS": 2})]:
-        r = le.generate(module, env=env, timeout=3600, cfg="lang/GenNameCases.cfg" if module == "GenNameCases" else "lang/MCGen.cfg",
-                        coverage=module != "GenNameCases")
+    # (arraycases: captured arrays mutated through index paths while a same-named variable is live on the call chain -
+    # which DECLARATION an indexed write lands in is this property's question too)
+    fam = {"GenNameCases": "lang/GenNameCases.cfg", "GenArrCases": "lang/GenArrCases.cfg"}
+    for module, env in profiles(tier) + [("GenNameCases", {"EVENTS": 2}), ("GenArrCases", {})]:
+        r = le.generate(module, env=env, timeout=3600, cfg=fam.get(module, "lang/MCGen.cfg"), coverage=module not in fam)
         tally.add_tlc(module, r)
         judged = le.replay(r.records, modes=["nn", "fn", "fp"], ev=3, compare_events=True)
         tally.add(judged)
